@@ -4,7 +4,8 @@
  * REDZONE_LOG when it was overwritten (the process continues).  redzone_check_all() is not provided:
  * blocks are checked when they are released or resized -- the harness drops every result and collects
  * before it exits.  Blocks that do not carry the magic (allocated before this library was loaded, or by
- * memalign & co) are forwarded untouched.  A write BEFORE the block destroys the magic: the block is then
+ * memalign & co) are forwarded untouched; a wrapped block is never moved by libc's realloc and its header is cleared
+ * before it is released, so freed memory never contains a stale header that could make such a block look wrapped.  A write BEFORE the block destroys the magic: the block is then
  * forwarded to libc's free with the user pointer, which aborts -- also a detected failure.
  * No stdio, no allocation in the hooks.  Build: tools/interpose/build_redzone.sh */
 #define _GNU_SOURCE
@@ -24,6 +25,7 @@ extern void *__libc_realloc(void *, size_t);
 static const unsigned char PAT = 0xC5;
 static int log_fd = -2;
 static uint64_t serial_ = 0;
+static int poison_ = -1; /* REDZONE_POISON=1: fresh malloc/realloc-grown bytes are filled with 0xAB (not calloc) */
 static uint64_t overflows_ = 0;
 
 static void open_log_(void) {
@@ -92,7 +94,16 @@ static void verify_(void *p) {
     if (u[n + i] != PAT) { report_(n, (uint64_t)i); return; }
 }
 
-void *malloc(size_t n) { return wrap_((unsigned char *)__libc_malloc(n + HDR + RZ), n); }
+static int poison_on_(void) {
+  if (poison_ < 0) { const char *p = getenv("REDZONE_POISON"); poison_ = (p && p[0] == '1') ? 1 : 0; }
+  return poison_;
+}
+
+void *malloc(size_t n) {
+  unsigned char *raw = (unsigned char *)__libc_malloc(n + HDR + RZ);
+  if (raw && poison_on_()) memset(raw + HDR, 0xAB, n);
+  return wrap_(raw, n);
+}
 
 void *calloc(size_t a, size_t b) {
   size_t n = a * b;
@@ -116,8 +127,15 @@ void *realloc(void *p, size_t n) {
   if (!ours_(p)) return __libc_realloc(p, n);
   verify_(p);
   if (n == 0) { free(p); return 0; }
-  unsigned char *raw = (unsigned char *)__libc_realloc((unsigned char *)p - HDR, n + HDR + RZ);
-  return wrap_(raw, n);
+  /* never let libc move a wrapped block: the old copy would keep a stale {magic, size} header in freed
+     memory, and a later memalign'ed (unwrapped) block handed out at that address would be taken for ours.
+     Allocate, copy, release through our own free(), which clears the header first. */
+  uint64_t old = ((uint64_t *)((unsigned char *)p - HDR))[1];
+  void *q = malloc(n);
+  if (!q) return 0;
+  memcpy(q, p, old < n ? old : n);
+  free(p);
+  return q;
 }
 
 size_t malloc_usable_size(void *p) {
